@@ -8,7 +8,8 @@
     and over every single-tree parser [np] where one is called. *)
 From Coq Require Import String Ascii ZArith QArith Bool Arith List.
 From GT Require Import Base.UTree Model.Newick Model.MultiTree Model.Nexus Model.Clade
-     Proofs.NewickFuel Proofs.MultiTree Proofs.NexusLex Proofs.NexusTotal Proofs.NexusFirst Proofs.Clade.
+     Proofs.NewickFuel Proofs.NewickWf Proofs.MultiTree Proofs.NexusLex Proofs.NexusTotal Proofs.NexusFirst Proofs.Clade
+     Proofs.ReadersWf.
 Import ListNotations.
 Local Close Scope Q_scope.
 Local Open Scope string_scope.
@@ -127,3 +128,40 @@ Theorem C02_nextstrain_to_tree_total : forall c,
     (exists t, ns_to_tree c = inl t) \/ ns_to_tree c = inr "one tip has no name".
 Proof. intros c. exact (ns_node_total c true). Qed.
 Print Assumptions C02_nextstrain_to_tree_total.
+
+(** * every delivered tree can be traversed, indexed and written: in the model this is
+    well-formedness of the delivered structure ([wf]: no parent slot in the root, exactly one
+    in every other node); the model's traversals ([nodes], [edges], [tips]), index
+    computations and writers are total Coq functions on every [utree].  What remains observed
+    only (oracle of Judge/C02.v on every case): that the Go methods Nodes/Edges/Tips/
+    ReinitIndexes/Newick terminate without panic on the pointer structure the readers build
+    (e.g. the nil-edge dereference of computeEdgeHashesRightRecur on a single-child root was
+    found there), and the decoding layers encoding/xml, encoding/json. *)
+(** single Newick (C01_parsed_tree_wf), lifted to the other readers *)
+Theorem C02_newick_delivered_wf :
+  forall (numeric : string -> bool) (parse_num : string -> option Q) s t,
+    Newick.parse numeric parse_num s = Newick.POk t -> wf t = true.
+Proof. exact parse_wf. Qed.
+Print Assumptions C02_newick_delivered_wf.
+
+Theorem C02_multi_delivered_wf :
+  forall (np : string -> utree + string),
+    (forall s t, np s = inl t -> wf t = true) ->
+    forall reads l, read_multi np reads = MDone l -> Forall item_wf l.
+Proof. exact read_multi_wf. Qed.
+Print Assumptions C02_multi_delivered_wf.
+
+Theorem C02_nexus_delivered_wf :
+  forall (np : string -> utree + string),
+    (forall s t, np s = inl t -> wf t = true) ->
+    forall s d, nexus_parse np s = Nexus.POk d -> Forall (fun p => wf (snd p) = true) (doc_trees d).
+Proof. exact nexus_parse_wf. Qed.
+Print Assumptions C02_nexus_delivered_wf.
+
+Theorem C02_phyloxml_delivered_wf : forall c t, clade_to_tree c = inl t -> wf t = true.
+Proof. exact clade_to_tree_wf. Qed.
+Print Assumptions C02_phyloxml_delivered_wf.
+
+Theorem C02_nextstrain_delivered_wf : forall c t, ns_to_tree c = inl t -> wf t = true.
+Proof. exact ns_to_tree_wf. Qed.
+Print Assumptions C02_nextstrain_delivered_wf.
